@@ -12,6 +12,7 @@ package executors
 //
 // ops:  new <k> bulk|chunk <max|def> <iv|def>     obs: max=<threshold of the container> iv=<pe.interval>
 //       add <k> <x>       one task (x = 8*id + size code, as in TestVerifC11)      obs: c=<pending tasks> sz=<chunk bytes|->
+//                                                              [e=<Add calls that returned a non-nil error>]
 //       addn <k> <n> <code> <first id>   n tasks with consecutive ids and that size code     obs: as add
 //       flush <k>                                                                 obs: as add
 //       wait <k>          obs: b=<batches executed since the last wait, sorted by first task; tasks joined by '.',
@@ -44,6 +45,7 @@ type c11qInst struct {
 	peek  func() (int, string)
 	mu    sync.Mutex
 	done  [][]int
+	errs  int // Add calls of the public wrappers that returned a non-nil error
 }
 
 func c11qSize(x int) int {
@@ -132,6 +134,11 @@ func TestVerifC11Seq(t *testing.T) {
 		insts := map[int]*c11qInst{}
 		obs := func(in *c11qInst) string {
 			c, sz := in.peek()
+			if in.errs > 0 {
+				n := in.errs
+				in.errs = 0
+				return fmt.Sprintf("c=%d sz=%s e=%d", c, sz, n)
+			}
 			return fmt.Sprintf("c=%d sz=%s", c, sz)
 		}
 		step := func(op []string) string {
@@ -167,7 +174,11 @@ func TestVerifC11Seq(t *testing.T) {
 					}
 					be := NewBulkExecutor(exec, opts...)
 					in.pe = be.executor
-					in.add = func(x int) { _ = be.Add(x) }
+					in.add = func(x int) {
+						if err := be.Add(x); err != nil {
+							in.errs++
+						}
+					}
 					in.flush = be.Flush
 					in.wait = be.Wait
 					in.peek = func() (c int, sz string) {
@@ -187,7 +198,11 @@ func TestVerifC11Seq(t *testing.T) {
 					}
 					ce := NewChunkExecutor(exec, opts...)
 					in.pe = ce.executor
-					in.add = func(x int) { _ = ce.Add(x, c11qSize(x)) }
+					in.add = func(x int) {
+						if err := ce.Add(x, c11qSize(x)); err != nil {
+							in.errs++
+						}
+					}
 					in.flush = ce.Flush
 					in.wait = ce.Wait
 					in.peek = func() (c int, sz string) {
